@@ -68,6 +68,9 @@ STEPS = [
     ("join_shared", f".natural_join(b={F}.rename_columns({{'z': 'y'}}), on=['g'], jointype='left')", "natural_join"),
     ("cat", f".concat_rows(b={F})", "concat_rows"),
     ("cat_id", f".concat_rows(b={F}, id_column='src')", "concat_rows"),
+    # record transform (cdata): one (k, v) block row per value column; in SQL a CROSS JOIN with the inlined control table
+    ("rec_unpivot", ".convert_records(RecordMap(blocks_out=RecordSpecification(pd.DataFrame({'k': ['a', 'b'], 'v': ['x', 'y']}), "
+                    "record_keys=['g'], control_table_keys=['k'])))", "convert_records"),
 ]
 STEP = {n: (s, k) for n, s, k in STEPS}
 
